@@ -1,12 +1,14 @@
 import Woodpile.Driver.Util
 import Woodpile.Driver.ReadN
 import Woodpile.Driver.SlidingDeque
+import Woodpile.Driver.SortedDeque
 
 open Woodpile.Driver
 
 def families : List (String × Family) := [
   ("readn", ReadNFam.family),
-  ("sdeque", SlidingDequeFam.family)
+  ("sdeque", SlidingDequeFam.family),
+  ("sorted", SortedDequeFam.family)
 ]
 
 def main (args : List String) : IO UInt32 := do
